@@ -573,10 +573,15 @@ restated_t restate(vf::rng_t& rng, const prog_t& P, const ref_t& ref, const evec
     }
     case 4:
     {
-        R.name = "scale-eq";
+        // a quarter of the equality rescalings is badly scaled (row scales spread over up to 8 orders of magnitude):
+        // the statement allows any rescaling of equality rows, and rank decisions on [A|b] are scale sensitive
+        const bool wide = !exact && rng.chance(0.25); // not for the exact status constructions: an inconsistency
+                                                      // scaled to 1e-8 relative is below the solver's resolution
+        R.name          = wide ? "scale-eq-wide" : "scale-eq";
         for (int i = 0; i < p; ++i)
         {
-            const double s = (rng.chance(0.5) ? -1.0 : 1.0) * (exact ? pow2(rng, -6, 6) : rng.loguniform(1e-2, 1e2));
+            const double s = (rng.chance(0.5) ? -1.0 : 1.0) *
+                             (exact ? pow2(rng, -6, 6) : rng.loguniform(wide ? 1e-4 : 1e-2, wide ? 1e4 : 1e2));
             R.P.A.row(i) *= s;
             R.P.b(i) *= s;
         }
